@@ -176,6 +176,23 @@ Fixpoint ok_polled_from (u : Z) (pI pC pT : bool) (obs : list stepobs) : bool :=
 Definition ok_cancel_polled (dl : list Z) (obs : list stepobs) : bool :=
   forallb (fun u => ok_polled_from u false false false obs) dl.
 
+(* ---- the cancel handler examines every uid of every request ----
+   control_cb walks the uid list of the message AS RECEIVED and looks every
+   uid up in self._tasks (get_task): at quiescence the control thread has
+   performed, for every uid u, exactly as many lookups of u as requests name u
+   (with multiplicity) -- whatever the other threads did meanwhile, in
+   particular whatever the intake filter removed from the component's cancel
+   list.  No named uid is skipped. *)
+Definition occ (u : Z) (l : list Z) : nat := length (filter (Z.eqb u) l).
+Definition lookup_ev (u : Z) (e : event) : bool := let '(k, v, _) := e in (k =? K_TASKS_GET) && (v =? u).
+Fixpoint n_lookups (u : Z) (obs : list stepobs) : nat :=
+  match obs with
+  | [] => 0
+  | (th, es, _) :: r => Nat.add (if thread_eqb th ThC then length (filter (lookup_ev u) es) else 0%nat) (n_lookups u r)
+  end.
+Definition ok_handler_covers (sc : scenario) (obs : list stepobs) (q : bool) : bool :=
+  negb q || forallb (fun u => Nat.eqb (n_lookups u obs) (occ u (named sc))) (named sc).
+
 (* ---- a named task that was launched is examined for cancellation after it
         entered the executor's registry ----
    Per uid, over the recorded actions (with the thread that performed them):
@@ -212,7 +229,7 @@ Definition ok_named_examined (sc : scenario) (obs : list stepobs) (q : bool) : b
 Definition c07_clauses (sc : scenario) (obs : list stepobs) (q : bool) : list bool :=
   let dl := delivered sc in let ems := emissions obs in
   [ ok_announced dl q ems; ok_handed_on dl q ems; ok_unscheduled dl q ems; ok_not_both dl ems;
-    ok_outcome_attached ems; ok_order dl ems; ok_truthful obs; ok_named_examined sc obs q; ok_cancel_polled dl obs ].
+    ok_outcome_attached ems; ok_order dl ems; ok_truthful obs; ok_named_examined sc obs q; ok_cancel_polled dl obs; ok_handler_covers sc obs q ].
 
 Definition c07_row (sc : scenario) (sched : list choice) (obs : list stepobs) (q : bool) (fin : final) : list bool :=
   corr_bit sc sched obs q fin :: c07_clauses sc obs q.
@@ -286,7 +303,7 @@ Definition ok_bystanders (sc : scenario) (obs : list stepobs) (q : bool) : bool 
 
 Definition c08_exec_clauses (sc : scenario) (obs : list stepobs) (q : bool) : list bool :=
   [ ok_named_end sc q (emissions obs); ok_canceled_stopped (delivered sc) obs; ok_later_met sc obs;
-    ok_bystanders sc obs q; ok_named_examined sc obs q; ok_cancel_polled (delivered sc) obs ].
+    ok_bystanders sc obs q; ok_named_examined sc obs q; ok_cancel_polled (delivered sc) obs; ok_handler_covers sc obs q ].
 
 Definition c08_exec_row (sc : scenario) (sched : list choice) (obs : list stepobs) (q : bool) (fin : final) : list bool :=
   corr_bit sc sched obs q fin :: c08_exec_clauses sc obs q.
